@@ -83,6 +83,93 @@ def rotD {K} [OfNat K 0] [OfNat K 1] [OfNat K 2] [Neg K] [Add K] [Sub K] [Mul K]
   | 3 => c 0 0 - c 1 1
   | _ => c 0 1
 
+
+/-! ### f shell:  `fz3, fxz2, fyz2, fzx2-zy2, fxyz, fx3-3xy2, f3yx2-y3`,
+    monomials used by the code `OC[0..6] = [z³, xz², yz², zx², xyz, x³, y³]`
+
+    The orbitals are integer-coefficient cubics divided by normalisation constants:
+      fz3 = z(2z²−3x²−3y²)/(2√15), fxz2 = x(4z²−x²−y²)/(2√10), fyz2 = y(4z²−x²−y²)/(2√10), fzx2-zy2 = z(x²−y²)/2,
+      fxyz = xyz, fx3-3xy2 = x(x²−3y²)/(2√6), f3yx2-y3 = y(3x²−y²)/(2√6);   `r15, r10, r6` = √15, √10, √6. -/
+
+/-- a homogeneous cubic polynomial as a list of monomials `(coefficient, a, c, e)` = `coefficient · v_a v_c v_e` -/
+abbrev Cub (K : Type) := List (K × Fin 3 × Fin 3 × Fin 3)
+
+def evalCub {K} [Add K] [Mul K] [OfNat K 0] (q : Cub K) (v : V3 K) : K :=
+  q.foldr (fun m acc => m.1 * v m.2.1 * v m.2.2.1 * v m.2.2.2 + acc) 0
+
+/-- substitute `v = S·r` and expand: coefficient array (ordered index triples `b d f`) of the result -/
+def substCub {K} [Add K] [Mul K] [OfNat K 0] (q : Cub K) (S : M3 K) (b d f : Fin 3) : K :=
+  q.foldr (fun m acc => m.1 * S m.2.1 b * S m.2.2.1 d * S m.2.2.2 f + acc) 0
+
+/-- coefficients of the seven monomials the code reads off after `expand` (sum over the orderings of the indices) -/
+def coefZZZ {K} (q : Fin 3 → Fin 3 → Fin 3 → K) : K := q 2 2 2
+def coefXZZ {K} [Add K] (q : Fin 3 → Fin 3 → Fin 3 → K) : K := q 0 2 2 + q 2 0 2 + q 2 2 0
+def coefYZZ {K} [Add K] (q : Fin 3 → Fin 3 → Fin 3 → K) : K := q 1 2 2 + q 2 1 2 + q 2 2 1
+def coefZXX {K} [Add K] (q : Fin 3 → Fin 3 → Fin 3 → K) : K := q 2 0 0 + q 0 2 0 + q 0 0 2
+def coefXYZ {K} [Add K] (q : Fin 3 → Fin 3 → Fin 3 → K) : K :=
+  q 0 1 2 + q 0 2 1 + q 1 0 2 + q 1 2 0 + q 2 0 1 + q 2 1 0
+def coefXXX {K} (q : Fin 3 → Fin 3 → Fin 3 → K) : K := q 0 0 0
+def coefYYY {K} (q : Fin 3 → Fin 3 → Fin 3 → K) : K := q 1 1 1
+
+/-- the integer-coefficient cubics `g_i` (numerators of the f orbitals) -/
+def gCub {K} [OfNat K 1] [OfNat K 2] [OfNat K 3] [OfNat K 4] [Neg K] (i : Fin 7) : Cub K :=
+  match i.val with
+  | 0 => [(2, 2, 2, 2), (-3, 2, 0, 0), (-3, 2, 1, 1)]      -- z(2z² − 3x² − 3y²)
+  | 1 => [(4, 0, 2, 2), (-1, 0, 0, 0), (-1, 0, 1, 1)]      -- x(4z² − x² − y²)
+  | 2 => [(4, 1, 2, 2), (-1, 1, 0, 0), (-1, 1, 1, 1)]      -- y(4z² − x² − y²)
+  | 3 => [(1, 2, 0, 0), (-1, 2, 1, 1)]                     -- z(x² − y²)
+  | 4 => [(1, 0, 1, 2)]                                    -- xyz
+  | 5 => [(1, 0, 0, 0), (-3, 0, 1, 1)]                     -- x(x² − 3y²)
+  | _ => [(3, 1, 0, 0), (-1, 1, 1, 1)]                     -- y(3x² − y²)
+
+/-- normalisation constants `n_i`:  `f_i = g_i / n_i` -/
+def nF {K} [OfNat K 1] [OfNat K 2] [Mul K] (r15 r10 r6 : K) (i : Fin 7) : K :=
+  match i.val with
+  | 0 => 2 * r15
+  | 1 => 2 * r10
+  | 2 => 2 * r10
+  | 3 => 2
+  | 4 => 1
+  | 5 => 2 * r6
+  | _ => 2 * r6
+
+def fCub {K} [OfNat K 1] [OfNat K 2] [OfNat K 3] [OfNat K 4] [Neg K] [Mul K] [Div K]
+    (r15 r10 r6 : K) (i : Fin 7) : Cub K := (gCub i).map (fun m => (m.1 / nF r15 r10 r6 i, m.2))
+
+def gFun {K} [OfNat K 0] [OfNat K 1] [OfNat K 2] [OfNat K 3] [OfNat K 4] [Neg K] [Add K] [Mul K]
+    (i : Fin 7) (v : V3 K) : K := evalCub (gCub i) v
+
+def fFun {K} [OfNat K 0] [OfNat K 1] [OfNat K 2] [OfNat K 3] [OfNat K 4] [Neg K] [Add K] [Mul K] [Div K]
+    (r15 r10 r6 : K) (i : Fin 7) (v : V3 K) : K := evalCub (fCub r15 r10 r6 i) v
+
+/-- `rot_orb_basis('f', rot_glb)` with `S = inv(rot_glb)`, `subs[k]` = coefficient of `OC[k]` in `f_i(S·r)`:
+      [0,i] = subs0·√15 ; [1,i] = subs1·√10/2 ; [2,i] = subs2·√10/2 ; [3,i] = 2 subs3 + 3 subs0 ; [4,i] = subs4 ;
+      [5,i] = (2 subs5 + subs1/2)·√6 ; [6,i] = (−2 subs6 − subs2/2)·√6 -/
+def rotF {K} [OfNat K 0] [OfNat K 1] [OfNat K 2] [OfNat K 3] [OfNat K 4] [Neg K] [Add K] [Sub K] [Mul K] [Div K]
+    (r15 r10 r6 : K) (S : M3 K) : Fin 7 → Fin 7 → K := fun j i =>
+  let q := substCub (fCub r15 r10 r6 i) S
+  match j.val with
+  | 0 => coefZZZ q * r15
+  | 1 => coefXZZ q * r10 / 2
+  | 2 => coefYZZ q * r10 / 2
+  | 3 => 2 * coefZXX q + 3 * coefZZZ q
+  | 4 => coefXYZ q
+  | 5 => (2 * coefXXX q + coefXZZ q / 2) * r6
+  | _ => (-(2 * coefYYY q) - coefYZZ q / 2) * r6
+
+/-- the same extraction in the rescaled integer basis `g` (rational entries): `rotF j i = n_j · rotG j i / n_i` -/
+def rotG {K} [OfNat K 0] [OfNat K 1] [OfNat K 2] [OfNat K 3] [OfNat K 4] [Neg K] [Add K] [Sub K] [Mul K] [Div K]
+    (S : M3 K) : Fin 7 → Fin 7 → K := fun j i =>
+  let q := substCub (gCub i) S
+  match j.val with
+  | 0 => coefZZZ q / 2
+  | 1 => coefXZZ q / 4
+  | 2 => coefYZZ q / 4
+  | 3 => coefZXX q + 3 * coefZZZ q / 2
+  | 4 => coefXYZ q
+  | 5 => coefXXX q + coefXZZ q / 4
+  | _ => -(coefYYY q) - coefYZZ q / 4
+
 /-! ### hybrids and Dwann on index functions -/
 
 def sumRange {K} [Add K] [OfNat K 0] : Nat → (Nat → K) → K
@@ -129,6 +216,7 @@ def m3Of (rows : List (List Rat)) : M3 Rat := fun a b => (rows.getD a.val []).ge
 
 def fin3 : List (Fin 3) := [0, 1, 2]
 def fin5 : List (Fin 5) := [0, 1, 2, 3, 4]
+def fin7 : List (Fin 7) := [0, 1, 2, 3, 4, 5, 6]
 
 def showQ (z : QS3) : String := showRat z.a ++ "," ++ showRat z.b
 
@@ -146,6 +234,11 @@ def handle : List String → String
     | some s =>
       let S : M3 QS3 := fun a b => QS3.ofRat (m3Of s a b)
       ";".intercalate (fin5.flatMap (fun j => fin5.map (fun i => showQ (rotD QS3.sqrt3 S j i))))
+    | none => "bad-op"
+  -- rotg S → 7×7 rationals (f shell in the rescaled integer basis g; A_ji = n_j·B_ji/n_i)
+  | ["rotg", s] =>
+    match parseRatss? s with
+    | some s => showRatss (fin7.map (fun j => fin7.map (fun i => rotG (m3Of s) j i)))
     | none => "bad-op"
   -- hyb h b M A → h×h
   | ["hyb", h, b, m, a] =>
